@@ -6,6 +6,7 @@
 //	                                                   the run is logged with the OBSERVED results for Trace_Quota, which
 //	                                                   evaluates the C42 invariants on the observed accounting
 //	vh-quota record <seed> <traces> <len> <trace-out>   random histories with real-scale numbers
+//	vh-quota concurrent <seed> <rounds> <trace-out>     8 goroutines hammer IncreaseLoad after each Reset; per-window totals
 package main
 
 import (
@@ -15,6 +16,7 @@ import (
 	"os"
 	"sort"
 	"strconv"
+	"sync"
 
 	"github.com/ElrondNetwork/elrond-go/core"
 	"github.com/ElrondNetwork/elrond-go/process"
@@ -304,6 +306,103 @@ func record(seed int64, traces, length int, out string) {
 	r.finish()
 }
 
+// concurrent: G goroutines behind a start barrier call IncreaseLoad for the same few peers right after a Reset; per
+// reset window and peer the accepted messages / bytes are totalled and logged ("Window") for Trace_Quota (observation
+// config), which evaluates the C42 bounds on them. Nothing here depends on timing for soundness: whatever the
+// interleaving, a correct preventer keeps the totals within the bounds.
+func concurrent(seed int64, rounds int, out string) {
+	const G = 8
+	rnd := rand.New(rand.NewSource(seed))
+	w, err := vtrace.NewWriter(out)
+	if err != nil {
+		panic(err)
+	}
+	windows, calls, over := 0, 0, 0
+	type res struct {
+		p, size int
+		ok      bool
+	}
+	for cfgNo := 0; cfgNo < 6; cfgNo++ {
+		c := cfgT{base: 1 + rnd.Intn(3), maxSize: 1000 + rnd.Intn(3000), prT: []int{0, 0, 500}[rnd.Intn(3)], thr: 2, fQ: 4}
+		if cfgNo%2 == 1 {
+			c.maxSize = 3 + rnd.Intn(6) // byte quota is the binding one
+			c.base = 6
+		}
+		s, ok := newSut(c)
+		w.NewTraceWith("New", M{"cfg": c.m()}, M{"ok": ok}, M{})
+		if !ok {
+			panic("configuration rejected")
+		}
+		for r := 0; r < rounds/6; r++ {
+			if rnd.Intn(8) == 0 {
+				n := rnd.Intn(5)
+				s.apply(n)
+				w.Emit("Apply", M{"n": n}, M{"x": 0}, M{})
+			}
+			w.Emit("Reset", M{"x": 0}, M{"stats": s.doReset()}, M{})
+			npeers := 1 + rnd.Intn(2)
+			per := 1 + rnd.Intn(3)
+			size := 1 + rnd.Intn(3)
+			mixed := rnd.Intn(3) == 0
+			plan := make([][]res, G)
+			for g := range plan {
+				for k := 0; k < per; k++ {
+					sz := size
+					if mixed {
+						sz = 1 + rnd.Intn(4)
+					}
+					plan[g] = append(plan[g], res{p: 1 + rnd.Intn(npeers), size: sz})
+				}
+			}
+			var ready, done sync.WaitGroup
+			start := make(chan struct{})
+			ready.Add(G)
+			done.Add(G)
+			for g := 0; g < G; g++ {
+				go func(my []res) {
+					ready.Done()
+					<-start
+					for i := range my {
+						my[i].ok = s.increase(my[i].p, my[i].size)
+					}
+					done.Done()
+				}(plan[g])
+			}
+			ready.Wait()
+			close(start)
+			done.Wait()
+			calls += G * per
+			for p := 1; p <= npeers; p++ {
+				n, bytes, first := 0, 0, 0
+				for g := range plan {
+					for _, x := range plan[g] {
+						if x.p == p && x.ok {
+							n++
+							bytes += x.size
+							if x.size > first {
+								first = x.size
+							}
+						}
+					}
+				}
+				windows++
+				if n > 1 {
+					over++
+				}
+				w.Emit("Window", M{"p": p}, M{"n": n, "bytes": bytes, "first": first}, M{})
+			}
+		}
+	}
+	if err := w.Close(); err != nil {
+		panic(err)
+	}
+	vtrace.Stat("windows", windows)
+	vtrace.Stat("calls", calls)
+	vtrace.Stat("windows_with_more_than_one_accepted", over)
+	vtrace.Stat("events", w.N)
+	vtrace.Stat("goroutines", G)
+}
+
 func main() {
 	vtrace.Quiet()
 	if len(os.Args) < 2 {
@@ -319,6 +418,10 @@ func main() {
 			every = 1
 		}
 		replay(os.Args[2], os.Args[3], every)
+	case "concurrent":
+		seed, _ := strconv.ParseInt(os.Args[2], 10, 64)
+		n, _ := strconv.Atoi(os.Args[3])
+		concurrent(seed, n, os.Args[4])
 	case "record":
 		seed, _ := strconv.ParseInt(os.Args[2], 10, 64)
 		nt, _ := strconv.Atoi(os.Args[3])
